@@ -125,8 +125,16 @@ class Engine(object):
     def _register_builtin_specs(self):
         from . import models as M
 
+        class _Calls(list):
+            def __getitem__(self, i):
+                if isinstance(i, int) and not (-len(self) <= i < len(self)):
+                    # total spec functions: an out-of-range call index denotes a dummy event
+                    d = VObj(Z.const('no-such-call', Z.Obj))
+                    return ['call', d, [], {}, None, None]
+                return list.__getitem__(self, i)
+
         def calls(ctx):
-            return [e for e in ctx.trace if e[0] == 'call']
+            return _Calls(e for e in ctx.trace if e[0] == 'call')
 
         def _idx(ctx, i):
             n = Z.simp(TInt.to_z(i))
@@ -147,6 +155,25 @@ class Engine(object):
         @self.spec('call_arg')
         def call_arg(I, ctx, i, j):
             return calls(ctx)[_idx(ctx, i)][2][_idx(ctx, j)]
+
+        @self.spec('call_ret')
+        def call_ret(I, ctx, i):
+            o = calls(ctx)[_idx(ctx, i)][5]
+            return o[1] if o and o[0] == 'ret' else VObj(Z.const('no-return', Z.Obj))
+
+        @self.spec('call_raised')
+        def call_raised(I, ctx, i):
+            o = calls(ctx)[_idx(ctx, i)][5]
+            return VBool(bool(o and o[0] == 'exc'))
+
+        @self.spec('call_exc')
+        def call_exc(I, ctx, i):
+            o = calls(ctx)[_idx(ctx, i)][5]
+            return o[1] if o and o[0] == 'exc' else VObj(Z.const('no-exception', Z.Obj))
+
+        @self.spec('isinstance_of')
+        def isinstance_of(I, ctx, v, clsname):
+            return VBool(I.isinstance_z(ctx, v, clsname.const()))
 
         @self.spec('call_kw')
         def call_kw(I, ctx, i):
@@ -243,6 +270,9 @@ class Engine(object):
     # spec evaluation
 
     def spec_frame(self, fr, ghosts):
+        lg = getattr(fr, 'loop_ghosts', None)
+        if lg:
+            ghosts = dict(lg, **ghosts)
         sfr = Frame(fr.module, fr.qualname, dict(ghosts), parent=fr, cls=fr.cls, spec=True)
         sfr.selfv = fr.selfv
         ns = dict(self.specns)
@@ -536,8 +566,15 @@ class Engine(object):
         if not Z.is_true(Z.simp(self.callable_of_obj(ctx, fv))):
             if not ctx.branch(self.callable_of_obj(ctx, fv)):
                 I.raise_exc(ctx, 'TypeError', 'object is not callable', node)
-        ctx.trace.append(('call', fv, list(args), dict(kwargs), star))
-        return self.unknown_outcome(ctx, 'call', node)
+        ev = ['call', fv, list(args), dict(kwargs), star, None]
+        ctx.trace.append(ev)
+        try:
+            r = self.unknown_outcome(ctx, 'call', node)
+        except RaiseSig as rs:
+            ev[5] = ('exc', rs.exc)
+            raise
+        ev[5] = ('ret', r)
+        return r
 
     def call_external(self, ctx, fr, fv, args, kwargs, node, star, is_class=False):
         I = self.interp
@@ -719,6 +756,15 @@ class Engine(object):
             params = dict(c.params)
             params.update(over)
             self._verify_case(c, mod, fnode, params, label, res, budget_paths)
+        return res
+
+    def verify_node(self, c, mod, fnode, label='', budget_paths=2000):
+        """Verify a FunctionDef obtained from text the real code generates
+        (e.g. the instantiated _REQ_INNER_TMPL) against a contract."""
+        self.ground = None
+        res = FunctionResult(c.target)
+        res.file, res.span, res.hash = 'generated:' + c.target, (fnode.lineno, fnode.end_lineno), None
+        self._verify_case(c, mod, fnode, dict(c.params), label, res, budget_paths)
         return res
 
     def _check_loop_keys(self, c, fnode, res):
